@@ -176,7 +176,7 @@ func run(r *evid.Run) {
 		"default-value table = per scalar kind + enum a row of fields whose defaults step through the kind's boundary values (32/64-bit min/max and their neighbours, neighbours beyond 2^53 / 2^24, inf, nan) upwards and downwards, on every standard message and as extensions; " +
 		"aliased enum numbers (2 and 3 names) deleted with every subset of the names reserved x number reserved or not; type-name changes on singular / repeated / oneof-member / map-value / extension / delimited (field and file default) message and enum fields; " +
 		"file syntax over {proto2, proto3, edition 2023, no declaration}; " +
-		"ignore configurations = per operator of a fixed list and edited file one case x 3 versions x use in {all four categories, the narrowest ID list incl. deprecated IDs} x ignore_only maps of 1 or 2 entries over the key alphabet {expected rules, their categories, the deprecated IDs they replace, one unrelated rule} and the path alphabet {here, elsewhere} (+ ignore: [elsewhere]), both textual orders, x every rotation of buf's ID maps (map seeds); " +
+		"ignore configurations = per operator of a fixed list and edited file one case x 3 versions x use in {all four categories, the narrowest ID list incl. deprecated IDs} x ignore_only maps of 1 or 2 entries over the key alphabet {expected rules, their categories, the deprecated IDs they replace, one unrelated rule} and the path alphabet {here, elsewhere} (+ ignore: [elsewhere]; + except: [key] under the union), both textual orders, x every rotation of buf's ID maps (map seeds); " +
 		"many-files modules = n small files each with one of six documented edits plus unrelated additions, n from one below the switch to parallel chunks (8 files per unit of parallelism) through every remainder to one past the next multiple and 16p+1, parallelism p in {2,3,4} (thorough: 5, 8) and the machine's own, two package layouts; " +
 		"a case is distinct and non-trivial when the reference model expects at least one annotation for it (key = instance id / surrounding)")
 	r.Assume("expectations claim only what a rule's Purpose text and the rule documentation state; edits whose status the docs leave open (repeated<->map for the wire cardinality rules, STRING_PIECE->STRING, json_name side effect of a rename, proto2 <-> no syntax declaration, explicit zero default <-> no default) carry no expectation")
